@@ -40,6 +40,11 @@ let rec expr_of (x : sx) : expr =
   | L (A "arr" :: es) -> EArr (List.map expr_of es)
   | L [A "at"; a; i] -> EAt (expr_of a, expr_of i)
   | L [A "len"; a] -> ELen (expr_of a)
+  | L [A "s1"; A o; a] -> EStr1 ((match o with "len" -> SLen | "ofint" -> SOfInt | _ -> failwith ("sop1 " ^ o)), expr_of a)
+  | L [A "s2"; A o; a; b] ->
+      EStr2 ((match o with "plus" -> SPlus | "concat" -> SConcat | "equals" -> SEquals | "contains" -> SContains | "charat" -> SCharAt
+              | _ -> failwith ("sop2 " ^ o)), expr_of a, expr_of b)
+  | L [A "substr"; a; b; c] -> ESubstr (expr_of a, expr_of b, expr_of c)
   | _ -> failwith "expr"
 let rec stmt_of (x : sx) : stmt =
   match x with
@@ -70,7 +75,7 @@ let prog_of (x : sx) : program =
         pmain = n_of_hex m }
   | _ -> failwith "prog"
 
-let fault_name = function FAssert -> "assert" | FDivZero -> "divzero" | FDivOverflow -> "divoverflow" | FOob -> "oob"
+let fault_name = function FAssert -> "assert" | FDivZero -> "divzero" | FDivOverflow -> "divoverflow" | FOob -> "oob" | FStrDomain -> "strdomain"
 let show_outcome = function
   | Done (out, ex) -> "done " ^ hex_of_z ex ^ " " ^ hex_of_bytes out
   | Faulted (f, out) -> "fault " ^ fault_name f ^ " " ^ hex_of_bytes out
@@ -91,6 +96,7 @@ let show_nat = function
   | NDone (out, ex) -> "done " ^ hex_of_z ex ^ " " ^ hex_of_bytes out
   | NFaulted (NFAssert, out) -> "fault assert " ^ hex_of_bytes out
   | NFaulted (NFOob, out) -> "abort oob " ^ hex_of_bytes out
+  | NFaulted (NFStrDomain, out) -> "fault strdomain " ^ hex_of_bytes out
   | NFaulted (_, out) -> "signal fpe " ^ hex_of_bytes out
   | NStuckO -> "stuck"
   | NCcFailO -> "ccfail"
